@@ -159,7 +159,7 @@ theorem chunks_find (cfg : Cfg) (t r : Nat) (es : List (List α × PWT))
         | some v => simp [h2]
 
 theorem cell_replicate (n w t r : Nat) :
-    cell (List.replicate n (List.replicate (w + 1) ([] : List (Nat × WV)))) t r = [] := by
+    cell (List.replicate n (List.replicate w ([] : List (Nat × WV)))) t r = [] := by
   unfold cell
   rw [List.getElem?_replicate]
   split
@@ -168,7 +168,7 @@ theorem cell_replicate (n w t r : Nat) :
   · rfl
 
 theorem rowLen_replicate (n w t : Nat) (h : t < n) :
-    rowLen (List.replicate n (List.replicate (w + 1) ([] : List (Nat × WV)))) t = w + 1 := by
+    rowLen (List.replicate n (List.replicate w ([] : List (Nat × WV)))) t = w := by
   unfold rowLen
   rw [List.getElem?_replicate, if_pos h]
   simp
